@@ -362,14 +362,14 @@ package generic
 //@   props C10 C06
 //@   notypeinv
 //@   requires ptrs: o != nil && n != nil && desc != nil && !samerg(o, n) && !samerg(n, n.v) && !samerg(o, n.v) && !samerg(desc, n) && !samerg(desc, o)
-//@   requires nwin: n.t != proto.ERROR && n.t != proto.LIST && n.t != proto.MAP && n.t != proto.UNKNOWN && windowif(true, n.v, n.l)
+//@   requires nwin: n.t != proto.ERROR && n.t != proto.LIST && n.t != proto.MAP && n.t != proto.UNKNOWN && n.t != proto.GROUP && windowif(true, n.v, n.l)
 //@   requires path: (path.t == PathStrKey ==> 0 <= path.l && path.l < 1<<40) && (path.t == PathFieldId ==> 1 <= path.l && path.l < 1<<29)
 //@   requires schema: (desc.typ == proto.LIST ==> desc.elem != nil && desc.elem.typ != proto.LIST && desc.elem.typ != proto.MAP) && \
 //@       (desc.typ == proto.MAP ==> desc.elem != nil && desc.key != nil && desc.elem.typ != proto.LIST && desc.elem.typ != proto.MAP && desc.key.typ != proto.LIST && desc.key.typ != proto.MAP) && \
 //@       1 <= desc.baseId && desc.baseId < 1<<29
 //@   requires parent: (o.kt == proto.LIST ==> desc.typ == proto.LIST) && (o.kt == proto.MAP ==> desc.typ == proto.MAP)
 //@   requires pkind: o.kt == proto.MESSAGE ==> path.t == PathFieldId     // SetByPath turns names into ids before calling
-//@   requires notmap: o.kt != proto.MAP      // the map-entry case (five chained appends over every key kind) exceeds the path budget: not under contract
+//@   requires notmap: o.kt != proto.MAP      // the map-entry case (ToRaw is under contract, but composing five appends of varint-sized pieces exceeds the solver budget): not under contract
 //@   requires cfg: 0 <= DefaultTagSliceCap && DefaultTagSliceCap < 1<<20     // a public tuning variable; a negative value makes make() panic
 //@   ensures okk: old(o.kt == proto.MESSAGE || o.kt == proto.LIST || o.kt == proto.MAP) ==> r0 == nil && o.t == n.t && o.l == 0
 //@   ensures bad: !old(o.kt == proto.MESSAGE || o.kt == proto.LIST || o.kt == proto.MAP) ==> r0 != nil && o.t == old(o.t) && o.l == old(o.l) && n.l == old(n.l)
@@ -388,3 +388,34 @@ package generic
 //@       forall i :: 0 <= i && i < old(n.l) ==> byteat(n.v, protowire.vsize(ftag(int(old(desc.baseId)), 2)) + i) == old(byteat(n.v, i))
 //@   ensures nvalid: windowif(true, n.v, n.l) && n.t == old(n.t)
 //@   modifies o.t, o.l, n.l, n.v
+
+// ---- Path.ToRaw: the bytes that address a child inside its parent ------------------------------------------------
+// PathFieldId: the field tag varint(id << 3 | wire type of t) — nothing for LIST/MAP (their elements carry the tag);
+// PathStrKey:  map-entry key field: tag(1, BYTES) ++ varint(len) ++ bytes;
+// PathIntKey:  map-entry key field: tag(1, wire type of t) ++ the key encoded as kind t.
+//@ spec (Path).ToRaw
+//@   props C10 C06
+//@   requires cfg: 0 <= DefaultTagSliceCap && DefaultTagSliceCap < 1<<20
+//@   requires kind: t != proto.UNKNOWN && t != proto.ERROR && t != proto.GROUP && (self.t == PathIntKey ==> t != proto.LIST && t != proto.MAP)
+//@   requires str: self.t == PathStrKey ==> 0 <= self.l && self.l < 1<<40
+//@   ensures fresh: self.t == PathFieldId || self.t == PathStrKey || self.t == PathIntKey ==> fresh(r0)
+//@   ensures idlen: self.t == PathFieldId && t != proto.LIST && t != proto.MAP ==> len(r0) == protowire.vsize(ftag(self.l, proto.wtof(t)))
+//@   ensures idenc: self.t == PathFieldId && t != proto.LIST && t != proto.MAP ==> forall k :: 0 <= k && k < len(r0) ==> r0[k] == protowire.venc(ftag(self.l, proto.wtof(t)), k)
+//@   ensures idnone: self.t == PathFieldId && (t == proto.LIST || t == proto.MAP) ==> len(r0) == 0
+//@   ensures strlen: self.t == PathStrKey ==> len(r0) == 1 + protowire.vsize(uint64(self.l)) + self.l && r0[0] == 0x0a
+//@   ensures strhdr: self.t == PathStrKey ==> forall k :: 0 <= k && k < protowire.vsize(uint64(self.l)) ==> r0[1+k] == protowire.venc(uint64(self.l), k)
+//@   ensures strkey: self.t == PathStrKey ==> forall k :: 0 <= k && k < self.l ==> r0[1 + protowire.vsize(uint64(self.l)) + k] == byteat(self.v, k)
+//@   ensures i32: self.t == PathIntKey && t == proto.INT32 ==> len(r0) == 1 + protowire.vsize(uint64(int32(self.l))) && r0[0] == 0x08
+//@   ensures i32enc: self.t == PathIntKey && t == proto.INT32 ==> forall k :: 0 <= k && k < protowire.vsize(uint64(int32(self.l))) ==> r0[1+k] == protowire.venc(uint64(int32(self.l)), k)
+//@   ensures i64: self.t == PathIntKey && t == proto.INT64 ==> len(r0) == 1 + protowire.vsize(uint64(self.l)) && r0[0] == 0x08
+//@   ensures i64enc: self.t == PathIntKey && t == proto.INT64 ==> forall k :: 0 <= k && k < protowire.vsize(uint64(self.l)) ==> r0[1+k] == protowire.venc(uint64(self.l), k)
+//@   ensures u32: self.t == PathIntKey && t == proto.UINT32 ==> len(r0) == 1 + protowire.vsize(uint64(uint32(self.l))) && r0[0] == 0x08
+//@   ensures u64: self.t == PathIntKey && t == proto.UINT64 ==> len(r0) == 1 + protowire.vsize(uint64(self.l)) && r0[0] == 0x08
+//@   ensures s32: self.t == PathIntKey && t == proto.SINT32 ==> len(r0) == 1 + protowire.vsize(protowire.zz(int64(int32(self.l)))) && r0[0] == 0x08
+//@   ensures s64: self.t == PathIntKey && t == proto.SINT64 ==> len(r0) == 1 + protowire.vsize(protowire.zz(int64(self.l))) && r0[0] == 0x08
+//@   ensures f32: self.t == PathIntKey && (t == proto.SFIX32 || t == proto.FIX32) ==> len(r0) == 5 && r0[0] == 0x0d
+//@   ensures f64: self.t == PathIntKey && (t == proto.SFIX64 || t == proto.FIX64) ==> len(r0) == 9 && r0[0] == 0x09
+//@   ensures itag: self.t == PathIntKey ==> len(r0) >= 1 && r0[0] == 0x08 | byte(proto.wtof(t))
+//@   ensures iother: self.t == PathIntKey && t != proto.INT32 && t != proto.INT64 && t != proto.UINT32 && t != proto.UINT64 && t != proto.SINT32 && t != proto.SINT64 && \
+//@       t != proto.SFIX32 && t != proto.FIX32 && t != proto.SFIX64 && t != proto.FIX64 ==> len(r0) == 1
+//@   ensures other: self.t != PathFieldId && self.t != PathStrKey && self.t != PathIntKey ==> len(r0) == 0
